@@ -7,7 +7,12 @@ import (
 
 var ifExpression ifExpressionParser
 
-var untilElseIfElseOrEnd = parse.Any(StripType(elseIfExpression), StripType(elseExpression), StripType(closeBraceWithOptionalPadding))
+// The end of a block of nodes is detected by looking at the start of what follows it (`} else if`, `} else {` or `}`).
+// Parsing the whole else if / else branch just to find out that the block has ended, and then parsing it again for
+// real, doubles the work for every level of nesting.
+var untilElseIfElseOrEnd = parse.Any(StripType(elseIfPrefix), StripType(endElseParser), StripType(closeBraceWithOptionalPadding))
+
+var elseIfPrefix = parse.All(parse.OptionalWhitespace, closeBrace, parse.OptionalWhitespace, parse.String("else if"))
 
 type ifExpressionParser struct{}
 
@@ -71,7 +76,7 @@ func (elseIfExpressionParser) Parse(pi *parse.Input) (r ElseIfExpression, ok boo
 	start := pi.Index()
 
 	// Check the prefix first.
-	if _, ok, err = parse.All(parse.OptionalWhitespace, closeBrace, parse.OptionalWhitespace, parse.String("else if")).Parse(pi); err != nil || !ok {
+	if _, ok, err = elseIfPrefix.Parse(pi); err != nil || !ok {
 		pi.Seek(start)
 		return
 	}
